@@ -1,25 +1,11 @@
-// C10 — stand-in for price_db::PriceRepository: the rate table is an uninterpreted function of the repository's RECORDS
-// (the cache is a memo and never changes an answer).  convert_single's contract is ASSUMED (L1: entry().or_insert_with(closure)
-// over the table computed by compute_price_table); what it says is its documented behaviour: an amount already in the
-// target commodity is returned as it is, otherwise value x rate, or RateNotFound when the table has no rate.
-#[verifier::external_body]
-pub struct PriceRepository { _p: usize }
+// C10 - the rate of one unit of `from` in `to` as of `date`: the entry of the table the records give for (to, date) - the table
+// PriceRepository::convert_single (extracted, proved below in this file) looks up.  The memo never changes an answer: that is
+// convert_single's `cache_consistent` invariant, proved, no longer assumed.
 impl PriceRepository {
-    /// rate of one unit of `from` in `to` as of `date`, decided by the records alone
-    pub uninterp spec fn rate(&self, from: Commodity, to: Commodity, date: NaiveDate) -> Option<real>;
-    /// the records (what `rate` depends on)
-    pub uninterp spec fn records(&self) -> int;
-
-    #[verifier::external_body]
-    pub fn convert_single(&mut self, value: SingleAmount, commodity_with: Commodity, date: NaiveDate) -> (r: Result<SingleAmount, ConversionError>)
-        ensures
-            final(self).records() == old(self).records(),
-            forall|a: Commodity, b: Commodity, d: NaiveDate| final(self).rate(a, b, d) == old(self).rate(a, b, d),
-            value.commodity == commodity_with ==> r == Ok::<SingleAmount, ConversionError>(value),
-            (value.commodity != commodity_with && old(self).rate(value.commodity, commodity_with, date) is None) ==> r is Err,
-            (value.commodity != commodity_with && old(self).rate(value.commodity, commodity_with, date) is Some) ==>
-                (r matches Ok(x) && x.commodity == commodity_with && x.v() == value.v() * old(self).rate(value.commodity, commodity_with, date)->0),
-    { unimplemented!() }
+    pub open spec fn rate(&self, from: Commodity, to: Commodity, date: NaiveDate) -> Option<real> {
+        let t = self.inner.table(to, date);
+        if t.contains_key(from) { Some(t[from].1.val()) } else { None }
+    }
 }
 
 /// value of one holding in the target commodity (None: no rate)
